@@ -52,7 +52,7 @@ func genLazySpec(dt *drv.T, c *Ctx) *GenSpec {
 		return &GenSpec{K: "slice", Min: -1, Max: 3, Sub: []*GenSpec{{K: "bytesmatch", Re: `[a-c]{0,3}UNIQ`}}}
 	case "make":
 		// reflection-built generators (structs, arrays, pointers are built lazily through Deferred)
-		return &GenSpec{K: "make", Type: pick(dt, "mktype", "struct", "nested", "array", "rec", "ptr", "ptrptr", "map", "slice", "slicenamed")}
+		return &GenSpec{K: "make", Type: pick(dt, "mktype", "struct", "nested", "array", "rec", "ptr", "ptrptr", "map", "slice", "slicenamed", "localA", "localB", "localC", "localA", "localB", "structmapbool")}
 	case "deferred":
 		return &GenSpec{K: "deferred", Sub: []*GenSpec{inner}}
 	case "regexp":
@@ -123,6 +123,12 @@ func (c15) Run(c *Ctx, csAny any) Outcome {
 	tag := fmt.Sprintf("q%dz", atomic.AddInt64(&c15Uniq, 1))
 	spec := uniquify(cs.Spec, tag)
 	env := &BuildEnv{} // no interpreter: Custom nodes only draw (goroutine-safe)
+	if spec.K == "make" && (spec.Type == "localA" || spec.Type == "localB") {
+		// another type of the same name (declared in another function) has been used with Make earlier in the process
+		sibling := map[string]string{"localA": "localB", "localB": "localA"}[spec.Type]
+		exampleOf(makeTypes[sibling].build(), 1)
+		out.Classes = append(out.Classes, "make-after-a-homonymous-type")
+	}
 	g := spec.Build(env)
 
 	applyCfg(CheckCfg{Seed: cs.Seed, Checks: cs.Checks, ShrinkNS: 0, NoFailFile: true})
@@ -151,6 +157,7 @@ func (c15) Run(c *Ctx, csAny any) Outcome {
 		return
 	}
 	logs := make([][]string, cs.P)
+	tbs := make([]*FakeTB, cs.P+1)
 	start := make(chan struct{})
 	var wg sync.WaitGroup
 	for i := 0; i < cs.P; i++ {
@@ -158,12 +165,13 @@ func (c15) Run(c *Ctx, csAny any) Outcome {
 		go func(i int) {
 			defer wg.Done()
 			<-start
-			logs[i], _ = runOne(cs.Strings[i])
+			logs[i], tbs[i] = runOne(cs.Strings[i])
 		}(i)
 	}
 	close(start)
 	wg.Wait()
-	solo, _ := runOne(-1)
+	solo, soloTB := runOne(-1)
+	tbs[cs.P] = soloTB
 
 	out.NonTrivial = cs.P >= 2
 	out.Classes = append(out.Classes, "lazy-"+cs.Spec.K, fmt.Sprintf("checks-in-parallel-%d", cs.P))
@@ -175,6 +183,28 @@ func (c15) Run(c *Ctx, csAny any) Outcome {
 			out.Viol = violf("C15:race-outside-library", "data race without a library frame (harness?): %s", sum)
 		}
 		return out
+	}
+	// the property of these checks only draws: a check that reports a falsification or panics has been handed
+	// something that is not a value of its generator (running out of valid test cases is not that)
+	for i, tb := range tbs {
+		who := fmt.Sprintf("check %d of %d running concurrently", i, cs.P)
+		lg := solo
+		if i == cs.P {
+			who = "the check that ran alone afterwards"
+		} else {
+			lg = logs[i]
+		}
+		for _, l := range lg {
+			if strings.HasPrefix(l, "PANIC ") {
+				out.Viol = violf("C15:check-panicked", "%s: a panic escaped rapid.Check: %.400s", who, l)
+				return out
+			}
+		}
+		msgs, failed, failNow, skipped := tb.Snapshot()
+		if rep := ParseReport(&Obs{Msgs: msgs, Failed: failed, FailNow: failNow, Skipped: skipped}); failed && (rep.Kind == "failed" || rep.Kind == "panic" || rep.Kind == "flaky") {
+			out.Viol = violf("C15:check-failed-on-a-property-that-only-draws", "%s: %s: %.400s", who, rep.Kind, rep.Msg)
+			return out
+		}
 	}
 	for i := range logs {
 		if strings.Join(logs[i], "\n") != strings.Join(solo, "\n") {
